@@ -173,12 +173,35 @@ def expected_grid(rows, h, w):
     return grid
 
 
+_VISIBLE_ON_SPACE = 8 | 32      # underline, invert
+
+
+def canon(cell):
+    """what a cell looks like: a colour index below 8 is the basic colour, and on a space only the
+    background, underline and inversion (with the foreground it then shows) can be seen"""
+    ch, fg, bg, st = cell
+    if isinstance(fg, tuple) and fg[0] == "idx" and isinstance(fg[1], int) and 0 <= fg[1] < 8:
+        fg = 30 + fg[1]
+    if isinstance(bg, tuple) and bg[0] == "idx" and isinstance(bg[1], int) and 0 <= bg[1] < 8:
+        bg = 40 + bg[1]
+    if ch == " ":
+        st &= _VISIBLE_ON_SPACE
+        if not st & 32:
+            fg = None
+    return (ch, fg, bg, st)
+
+
+def canon_grid(grid):
+    return [tuple(canon(c) for c in row) for row in grid]
+
+
 def show_grid(grid):
     return ["".join(c[0] for c in row) for row in grid]
 
 
 def diff_grid(exp, got):
-    """first differing cell, for messages"""
+    """first cell that looks different, for messages (None: the grids look the same)"""
+    exp, got = canon_grid(exp), canon_grid(got)
     for i, (e, g) in enumerate(zip(exp, got)):
         if tuple(e) != tuple(g):
             for j, (ce, cg) in enumerate(zip(e, g)):
